@@ -37,7 +37,7 @@ CurveClosestOK(q, v, o) ==
     /\ REq(SegD2(q, v[k], v[k + 1]), CurveMinD2(q, v))                 \* the named edge attains the global minimum
     /\ LET t == SegT(q, v[k], v[k + 1]) e == Edge(v, k) IN
        /\ AbsC(o.fq * t[2] - QFc * t[1]) <= 3 * t[2]                    \* fraction is the foot point's parameter
-       /\ \A a \in 1..3 : AbsC(o.p[a] * QFc - QPc * (v[k][a] * QFc + o.fq * e[a])) <= 3 * QFc   \* index+fraction reproduce the point
+       /\ \A a \in 1..3 : AbsC(o.p[a] * QFc - QPc * (v[k][a] * QFc + o.fq * e[a])) <= 3 * QFc + QPc * AbsC(e[a])   \* index+fraction reproduce the point
     /\ LET m == CurveMinD2(q, v) IN AbsC(o.dq2 * m[2] - 64 * m[1]) <= 2 * m[2] + (64 * m[1]) \div 1000   \* reported distance is the minimum
     /\ AbsC(o.dres) <= 64                                                  \* distance = |query - reported point|
 
@@ -74,7 +74,9 @@ ProjectionOK(q, vp, fs, o) ==
        /\ \A a \in 1..3 : o.bc[a] >= -2 /\ o.bc[a] <= QFc + 2             \* location is on the face ...
        /\ AbsC(o.bc[1] + o.bc[2] + o.bc[3] - QFc) <= 4
        /\ \A a \in 1..3 :                                                 \* ... and reproduces the point
-            AbsC(o.p[a] * QFc - QPc * (o.bc[1] * t[1][a] + o.bc[2] * t[2][a] + o.bc[3] * t[3][a])) <= 6 * QFc
+            \* (each quantised coordinate is off by up to half a quantum, which the vertex coordinates amplify)
+            AbsC(o.p[a] * QFc - QPc * (o.bc[1] * t[1][a] + o.bc[2] * t[2][a] + o.bc[3] * t[3][a]))
+                <= 2 * QFc + QPc * (AbsC(t[1][a]) + AbsC(t[2][a]) + AbsC(t[3][a]))
     /\ D2Matches(o.dq2, MeshMinD2(q, vp, fs))                             \* at the minimum distance
 \* closest surface point: at the minimum distance, carrying the normal of a face that attains it
 SurfClosestOK(q, vp, fs, o) ==
